@@ -123,6 +123,55 @@ def _check_reject_low(bp, res: Result, x: int):
         res.counters["rejected_low"] += 1
 
 
+_EOF_SIGNAL = {}
+
+
+def _eof_signal(bp, name):
+    if name not in _EOF_SIGNAL:
+        try:
+            if name == "decode_varint":
+                bp.decode_varint(b"\x80\x80", 0)
+            else:
+                bp.load_varint(io.BytesIO(b"\x80\x80"))
+            _EOF_SIGNAL[name] = None
+        except EOFError:
+            _EOF_SIGNAL[name] = "eof"
+        except ValueError:
+            _EOF_SIGNAL[name] = "valueerror"
+        except Exception as e:
+            _EOF_SIGNAL[name] = "exc:" + type(e).__name__
+    return _EOF_SIGNAL[name]
+
+
+def _check_decoder_offsets(bp, res: Result):
+    """decode_varint at a position inside a buffer: results are relative to that position, and a position at the very
+    end of the buffer is premature end of input like any other"""
+    want = _eof_signal(bp, "decode_varint")
+    for prefix in (b"\x08", b"\x08\x01\x10", b"\xff\x01", b""):
+        for tail, val in ((b"\x05", 5), (b"\xac\x02", 300), (b"", None), (b"\x80", None)):
+            buf = prefix + tail
+            pos = len(prefix)
+            res.counters["decoder_offset_inputs"] += 1
+            try:
+                r = bp.decode_varint(buf, pos)
+                got = ("ok", r[0], r[1])
+            except EOFError:
+                got = ("eof",)
+            except ValueError:
+                got = ("valueerror",)
+            except Exception as e:
+                got = ("exc:" + type(e).__name__,)
+            w = {"kind": "decoff", "b": buf.hex(), "pos": pos}
+            if val is not None:
+                if got != ("ok", val, pos + len(tail)):
+                    res.violation("decode", ["decode_varint", "at-offset", "wrong-result:" + got[0]], f"decode_varint({buf.hex()}, {pos}) = {got}", w)
+            elif got[0] == "ok":
+                res.violation("decode-truncated", ["decode_varint", "at-offset", "accepted"], f"decode_varint({buf.hex()}, {pos}) = {got}", w)
+            elif want is not None and got[0] != want:
+                res.violation("decode-truncated", ["decode_varint", "position-at-end-of-buffer" if not tail else "truncated", "signalled-differently:" + got[0]],
+                              f"decode_varint({buf.hex()!r}, {pos}) signals premature end of input with {got[0]}, a varint cut in the middle with {want}", w)
+
+
 def _check_decoder_input(bp, res: Result, b: bytes):
     """b as decoder input at offset 0"""
     try:
@@ -165,6 +214,13 @@ def _check_decoder_input(bp, res: Result, b: bytes):
                               f"{name}({b.hex()}) returned {got} on a truncated varint", {"kind": "dec", "b": b.hex()})
             else:
                 res.counters["truncated_signalled:" + got[0]] += 1
+                # ONE signal for premature end of input, wherever the input ends (nothing left at all, or in the middle
+                # of a varint): the class this tree raises for a varint cut after a continuation byte is the yardstick
+                want = _eof_signal(bp, name)
+                if want is not None and got[0] != want and len(b) < 10:  # 10 continuation bytes are "too long" just as well
+                    res.violation("decode-truncated", [name, "empty-input" if not b else "truncated", "signalled-differently:" + got[0]],
+                                  f"{name}({b.hex()!r}) signals premature end of input with {got[0]}, a varint cut in the middle with {want}",
+                                  {"kind": "dec", "b": b.hex()})
         else:
             if got[0] == "ok":
                 res.violation("decode-toolong", [name, "longer-than-10", "accepted"],
@@ -259,6 +315,8 @@ def run_shard(shard) -> Result:
         for b in _decoder_inputs(rng):
             _check_decoder_input(bp, res, b)
             n += 1
+        _check_decoder_input(bp, res, b"")
+        _check_decoder_offsets(bp, res)
         res.evaluations += n
         res.distinct_extra += n  # patterns are distinct by construction (random payload class may repeat; counted once per pattern)
         res.sample({"decoder_input": "8080808080808080808001", "note": "11-byte varint must be rejected"})
@@ -342,6 +400,8 @@ def replay(w):
         _check_reject_low(bp, res, int(w["x"]))
     elif w["kind"] == "dec":
         _check_decoder_input(bp, res, bytes.fromhex(w["b"]))
+    elif w["kind"] == "decoff":
+        _check_decoder_offsets(bp, res)
     elif w["kind"] == "scalar":
         from .. import corpus
         from ..values import BP, REF, tree_from_json, canon, NAN
